@@ -84,7 +84,13 @@ def _s(x):
 
 def call(acc, site, what, fn, case, arg=None):
     try:
-        return True, fn()
+        r = fn()
+        if getattr(acc, "scramble_results", False) and isinstance(r, (set, list, dict)):
+            # first round of a history: the caller empties / edits the container it was handed
+            keep = type(r)(r)
+            space.scramble(r)
+            return True, keep
+        return True, r
     except Exception as e:  # noqa: BLE001
         acc.transitions += 1
         c = dict(case)
@@ -287,6 +293,11 @@ def mutators(c):
             if u != v:
                 ops.append(["connect", u, v])      # only edits the API accepts are followed (legal circuits)
                 ops.append(["disconnect", u, v])
+    # move one edge: node and edge counts stay what they were, reachability / depth / cycles change
+    for (u, v) in sorted(c.graph.edges)[:3]:
+        for w in nodes[:4]:
+            if w not in (u, v) and not c.graph.has_edge(w, v):
+                ops.append(["move", u, v, w])
     for n in nodes[:2] + nodes[-1:]:
         ops.append(["remove", n])
     ops.append(["relabel", nodes[0], "zz"])
@@ -309,6 +320,9 @@ def mutate(c, op, kids):
     k = op[0]
     if k == "graph.add_edge":
         c.graph.add_edge(op[1], op[2])
+    elif k == "move":
+        c.disconnect(op[1], op[2])
+        c.connect(op[3], op[2])
     elif k == "disconnect":
         c.disconnect(op[1], op[2])
     elif k == "connect":
@@ -390,6 +404,7 @@ def run_history(job, acc):
             c = space.build(desc)
             case = {"kind": "history", "desc": desc, "ops": seq}
             quiet = Acc(job)
+            quiet.scramble_results = True
             check_any(quiet, c, case)          # first round of queries (may fill caches)
             ok = True
             for op in seq:
